@@ -116,13 +116,35 @@ def c02(ctx):
     buffer_model(ctx, deep=False)      # a result that changes after it was returned is not independent of later data
 
 
+def mode_traces(ctx):
+    """code -> model for the printer: the mode/override events of real executions -- the whole value universe of C04
+    plus redact-specific values, wrapped and unwrapped, every verb; and the repository's own test suite -- are judged
+    by the mode monitor (model-free) and validated by TLC against ModeTrace (the operators of Printer.tla)"""
+    import glob, os, subprocess
+    trace = ctx.work + "/mode.ndjson"
+    ctx.harness(["mode-drive", "-prop", ctx.prop, "-trace", trace, "-tracen", str(tier(ctx, 150000, 1200000)), "-n", str(tier(ctx, 3000, 40000))])
+    ctx.mode_trace_validate(trace, "mode-drive")
+    d = os.path.join(ctx.work, "msuite")
+    os.makedirs(d, exist_ok=True)
+    env = dict(ctx.env, REDACT_VERIF_MODE_TRACE=os.path.join(d, "t"))
+    r = subprocess.run(["go", "test", "-tags", "verif", "-vet=off", "-count=1", "./..."], cwd=ctx.repo, env=env,
+                       capture_output=True, text=True, timeout=1200)
+    if r.returncode != 0:
+        raise Broken("the repository's test suite fails with the verif tag on:\n" + (r.stdout + r.stderr)[-3000:])
+    for k, f in enumerate(sorted(glob.glob(d + "/t.*"), key=os.path.getsize, reverse=True)[:3]):
+        if os.path.getsize(f) > 0:
+            ctx.mode_trace_validate(f, "repo-test-suite/%d" % k, control=False)
+
+
 def c05(ctx):
     printer_slice(ctx, tier(ctx, "qcls", "cls"))
     printer_slice(ctx, "dir")
+    mode_traces(ctx)
 
 
 def c06(ctx):
     printer_slice(ctx, "wrap")
+    mode_traces(ctx)
     if ctx.tier == "thorough":
         printer_slice(ctx, "wrap", hook="plain")
     printer_control_f3(ctx)
